@@ -1173,6 +1173,10 @@ impl ops::Add<Program> for Program {
 
 impl ops::AddAssign<Program> for Program {
     fn add_assign(&mut self, rhs: Program) {
+        let calibrations_before = self.calibrations.calibrations.len();
+        let measure_calibrations_before = self.calibrations.measure_calibrations.len();
+        let calibrations_added = rhs.calibrations.calibrations.len();
+        let measure_calibrations_added = rhs.calibrations.measure_calibrations.len();
         self.calibrations.extend(rhs.calibrations);
         self.memory_regions.extend(rhs.memory_regions);
         self.frames.merge(rhs.frames);
@@ -1182,6 +1186,14 @@ impl ops::AddAssign<Program> for Program {
         self.extern_pragma_map.extend(rhs.extern_pragma_map);
         self.instructions.extend(rhs.instructions);
         self.used_qubits.extend(rhs.used_qubits);
+        if self.calibrations.calibrations.len() - calibrations_before != calibrations_added
+            || self.calibrations.measure_calibrations.len() - measure_calibrations_before
+                != measure_calibrations_added
+        {
+            // A calibration of `rhs` replaced one of `self`, which may have mentioned qubits that
+            // nothing else does.
+            self.rebuild_used_qubits();
+        }
     }
 }
 
